@@ -169,9 +169,9 @@ class Harness:
             if getattr(fn, "__self__", None) is self:
                 return None, fn(*args, **kwargs)
             return None, self.call(fn, *args, **kwargs)
-        except EngineError:
+        except (EngineError, KeyboardInterrupt):
             raise
-        except Exception as e:  # noqa
+        except BaseException as e:  # noqa
             return e, None
 
     # ------------------------------------------------------------------ obligations
